@@ -56,6 +56,7 @@ func verif_Convert_ServerCommonConf_To_v1(conf *ServerCommonConf) {
 //verif:props C04 C05 C07 C14
 //verif:kinds post,pre
 func verif_Convert_ClientCommonConf_To_v1(conf *ClientCommonConf) {
+	verif.ResetEvents()
 	out := Convert_ClientCommonConf_To_v1(conf)
 	verif.Ensures(out != nil && out.Auth.Method == v1.AuthMethod(conf.ClientConfig.AuthenticationMethod) && out.Auth.Token == conf.ClientConfig.Token && out.User == conf.User, "authentication_method_token_and_user_carried_over")
 	hb, wc := conf.ClientConfig.AuthenticateHeartBeats, conf.ClientConfig.AuthenticateNewWorkConns
@@ -75,7 +76,14 @@ func verif_Convert_ClientCommonConf_To_v1(conf *ClientCommonConf) {
 		verif.Ensures(sc[n-1] == v1.AuthScopeNewWorkConns, "work_connections_signed_iff_switched_on")
 	}
 	tls := out.Transport.TLS
-	// (tls_enable travels through a freshly allocated flag, lo.ToPtr: not decided here)
+	// tls_enable and disable_custom_tls_first_byte travel through freshly
+	// allocated flags (lo.ToPtr, called for tcp_mux, tls_enable,
+	// disable_custom_tls_first_byte and login_fail_exit, in this order): each
+	// flag is made from the switch of the same name and stored in its own field
+	const evPtr = "lo.ToPtr"
+	verif.Ensures(verif.NthArg[bool](evPtr, 1, 0) == conf.TLSEnable && tls.Enable == verif.NthRet[*bool](evPtr, 1, 0), "tls_enable_made_from_its_own_switch")
+	verif.Ensures(verif.NthArg[bool](evPtr, 2, 0) == conf.DisableCustomTLSFirstByte && tls.DisableCustomTLSFirstByte == verif.NthRet[*bool](evPtr, 2, 0), "first_byte_switch_made_from_its_own_switch")
+	verif.Ensures(verif.NthArg[bool](evPtr, 0, 0) == conf.TCPMux && out.Transport.TCPMux == verif.NthRet[*bool](evPtr, 0, 0), "tcp_mux_made_from_its_own_switch")
 	verif.Ensures(tls.CertFile == conf.TLSCertFile && tls.KeyFile == conf.TLSKeyFile && tls.TrustedCaFile == conf.TLSTrustedCaFile && tls.ServerName == conf.TLSServerName, "tls_identity_files_and_server_name_keep_their_roles")
 	verif.Ensures(out.WebServer.User == conf.AdminUser && out.WebServer.Password == conf.AdminPwd, "admin_credentials_carried_over")
 	verif.Ensures(out.Transport.HeartbeatInterval == conf.HeartbeatInterval && out.Transport.HeartbeatTimeout == conf.HeartbeatTimeout && out.Transport.PoolCount == conf.PoolCount, "heartbeat_and_pool_settings_carried_over")
